@@ -34,5 +34,10 @@ print("| seed | breaks | caught by | missed by (at the time of the last evaluati
 print("|---|---|---|---|---|")
 for f in sorted(glob.glob(V + "/seeded/*/meta.json")):
     m = json.load(open(f))
-    print("| %s | %s | %s | %s | %s |" % (os.path.basename(os.path.dirname(f)), m.get("breaks_property"), ", ".join(m.get("caught_by", [])) or "-",
-                                       ", ".join(m.get("missed_by", [])) or "-", (m.get("needs_to_manifest") or "")[:150].replace("|", "/").replace("\n", " ")))
+    fe = (m.get("final_evaluation") or {}).get("checks", {})
+    cb = [k + (" (obligation only)" if k in fe and fe[k]["violation"] and not fe[k]["with_failing_input"] else "")
+          for k in m.get("caught_by", [])]
+    if m.get("inert_since"):
+        cb = ["inert since repair " + m["inert_since"]["repo_commit"]]
+    print("| %s | %s | %s | %s | %s |" % (os.path.basename(os.path.dirname(f)), m.get("breaks_property"), ", ".join(cb) or "-",
+                                       ("-" if m.get("inert_since") else ", ".join(m.get("missed_by", [])) or "-"), (m.get("needs_to_manifest") or "")[:150].replace("|", "/").replace("\n", " ")))
